@@ -5,6 +5,14 @@ VERIF = os.path.dirname(os.path.dirname(os.path.abspath(__file__)))
 props = [json.loads(l) for l in open(os.path.join(VERIF, "properties.jsonl"))]
 
 CLAIMED = {
+    "C17": dict(
+        text="SeqSim.tla is the simulator as a state machine, one step per (equation, period) in either execution order, with simulate and "
+             "exogenize branches and exact transforms; TLC checks after every step that the equation just processed holds with its residual, at the "
+             "end that all equations hold when no value was read before being computed, that exogenized variables take the implied value, and the "
+             "frame condition. Every scenario (source text emitted by the spec, also written in rotated order and restored by reorder_equations) "
+             "is run through Sequential.simulate and the whole output compared with the spec's final state.",
+        note="Trusted: TLC, numpy exp/log. Bounds: 5 models of 2-3 equations, 3 periods, lags <= 2, plans with <= 2 exogenized variables, values integer or exp(integer).",
+        design="5/C17", technique="TLA+ spec (SeqSim) model-checked by TLC; every TLC-generated scenario/behaviour replayed into irispie"),
     "C16": dict(
         text="Blocks.tla specifies a valid block ordering as a state machine (SolveBlock enabled only for a square, structurally non-singular "
              "block whose equations involve own or earlier quantities; Finish when all is solved); TLC checks the partition/sequential-validity "
